@@ -2,6 +2,7 @@
 import numpy as np
 
 from .canon import dec
+from .gen_common import seed_object
 from .world import Skip
 
 OMIT = "omit"
@@ -13,7 +14,7 @@ def build_model(world, mtype, spec):
         W = dec(spec["W"])
         means = dec(spec["means"])
         variances = dec(spec["variances"])
-        return S.LGANM(W, means, variances, random_state=dec(spec.get("seed")))
+        return S.LGANM(W, means, variances, random_state=seed_object(world, spec.get("seed")))
     if mtype == "nd":
         return S.NormalDistribution(dec(spec["mean"]), dec(spec["cov"]))
     if mtype == "anm":
@@ -67,7 +68,7 @@ def invoke(world, rec):
     S = world.sempler
     api = rec["api"]
     a = rec.get("args", {})
-    seed = dec(rec.get("seed"))
+    seed = seed_object(world, rec.get("seed"))
 
     if api == "lganm.new":
         def f():
